@@ -37,7 +37,9 @@ pub fn header_expected(text: &str) -> (String, String) {
     (n.trim().to_string(), v.trim().to_string())
 }
 
-const NAMES: [&str; 8] = ["X-Name", "X-Api-Key", "x-trace-id", "Accept-Language", "X-Custom-Header-1", "Cookie", "X-UPPER", "x_underscore"];
+// incl. names the tool itself also sets (Authorization via --authorization, Content-Type, Accept):
+// the statement says every --header is carried, whatever else is sent
+const NAMES: [&str; 13] = ["X-Name", "X-Api-Key", "x-trace-id", "Accept-Language", "X-Custom-Header-1", "Cookie", "X-UPPER", "x_underscore", "Authorization", "authorization", "Content-Type", "Accept", "User-Agent"];
 const VALUES: [&str; 10] = [
     "Value",
     "a:b:c",
